@@ -274,6 +274,14 @@ fn unix_connect(name: &str) -> OwnedFd {
 
 pub const ZC_PREFILL: usize = 8192;
 
+/// the peer acknowledges at once (the harness owns when the sender's data counts as delivered)
+fn quickack(fd: RawFd) {
+    let one: libc::c_int = 1;
+    unsafe {
+        libc::setsockopt(fd, libc::IPPROTO_TCP, libc::TCP_QUICKACK, &one as *const _ as _, 4);
+    }
+}
+
 /// connected TCP pair on loopback whose accepting side has a minimal receive buffer:
 /// (operation side, peer)
 fn tcp_pair() -> (OwnedFd, OwnedFd) {
@@ -288,6 +296,14 @@ fn tcp_pair() -> (OwnedFd, OwnedFd) {
     a.set_nodelay(true).unwrap();
     a.set_nonblocking(true).unwrap();
     b.set_nonblocking(true).unwrap();
+    quickack(b.as_raw_fd());
+    // close with a reset: tens of thousands of executions must not pile up TIME_WAIT sockets
+    let lg = libc::linger { l_onoff: 1, l_linger: 0 };
+    for fd in [a.as_raw_fd(), b.as_raw_fd()] {
+        unsafe {
+            libc::setsockopt(fd, libc::SOL_SOCKET, libc::SO_LINGER, &lg as *const _ as _, std::mem::size_of::<libc::linger>() as _);
+        }
+    }
     (OwnedFd::from(a), OwnedFd::from(b))
 }
 
@@ -302,8 +318,6 @@ enum ResKind {
         obs: OwnedFd,
         /// everything written to the peer end so far (In direction)
         written: Vec<u8>,
-        /// Out direction: the operation end's send buffer was filled up
-        prefilled: bool,
         drained: bool,
         /// non-prefill bytes read from the peer end
         peer_got: Vec<u8>,
@@ -360,7 +374,6 @@ struct OpState {
 #[derive(Default, Clone, Debug)]
 pub struct IdState {
     pub op: usize,
-    pub alloc: u64,
     pub submit: Option<u64>,
     pub pool_submit: Option<u64>,
     pub enter: Option<u64>,
@@ -433,7 +446,7 @@ pub struct World<'a> {
     result_class: Vec<String>,
     /// per resource: (stream offset, stamp taken just before the harness wrote that chunk)
     write_stamps: Vec<Vec<(usize, u64)>>,
-    pool_frees_before_ring_closed: bool,
+
     finals_this_step: u32,
     torn_down: bool,
 }
@@ -454,7 +467,7 @@ impl<'a> World<'a> {
         pb.capacity(cfg.cap);
         pb.reuse_thread_pool(env.pool.clone());
         pb.buffer_pool_allocator::<PoolAlloc>();
-        pb.buffer_pool_size(std::num::NonZero::new(2).unwrap());
+        pb.buffer_pool_size(std::num::NonZero::new(8).unwrap());
         pb.buffer_pool_buffer_len(16);
         let rt = RuntimeBuilder::new()
             .with_proactor(pb)
@@ -495,7 +508,7 @@ impl<'a> World<'a> {
             made_ready_since_harvest: 0,
             result_class: vec![String::new(); prog.ops.len()],
             write_stamps: vec![Vec::new(); prog.nres()],
-            pool_frees_before_ring_closed: false,
+
             finals_this_step: 0,
             torn_down: false,
         };
@@ -563,7 +576,6 @@ impl<'a> World<'a> {
                             peer: b,
                             obs,
                             written: Vec::new(),
-                            prefilled: wants_prefill,
                             drained: false,
                             peer_got: Vec::new(),
                             tcp_prefill_left: 0,
@@ -582,7 +594,6 @@ impl<'a> World<'a> {
                             peer: b,
                             obs,
                             written: Vec::new(),
-                            prefilled: true,
                             drained: false,
                             peer_got: Vec::new(),
                             tcp_prefill_left: ZC_PREFILL,
@@ -709,7 +720,6 @@ impl<'a> World<'a> {
                 e.id,
                 IdState {
                     op,
-                    alloc: e.seq,
                     ..Default::default()
                 },
             );
@@ -1040,6 +1050,10 @@ impl<'a> World<'a> {
         let h = self.make_future(i);
         self.ops[i].holder = Some(h);
         self.ops[i].submitted = true;
+        if self.ops[i].token_cancelled {
+            // registered with an already cancelled token: cancelled at registration
+            self.ops[i].cancel_step = Some(self.step_idx);
+        }
         if self.ops[i].spec.mode == Mode::Task {
             let rt = self.rt.as_ref().unwrap();
             rt.enter(|| {
@@ -1111,14 +1125,20 @@ impl<'a> World<'a> {
     fn drain_peer(&mut self, res: usize) {
         // TCP: the prefill (and the payload of a send that was already issued) trickles in as the
         // window opens, so read until everything that was queued has arrived
+        // (a send counts as issued once one of its completions was seen)
         let zc_sent: usize = self
             .ops
             .iter()
             .enumerate()
             .filter(|(_, o)| o.spec.res as usize == res && o.spec.kind == Kind::Zc && o.submitted)
+            .filter(|(_, o)| o.ids.iter().any(|id| !self.ids[id].multis.is_empty() || !self.ids[id].finals.is_empty()))
             .map(|(i, _)| send_payload(i).len())
             .sum();
+        let is_tcp = self.prog.ops.iter().any(|o| o.res as usize == res && o.kind == Kind::Zc);
         if let ResKind::Stream { peer, peer_got, tcp_prefill_left, .. } = &mut self.ress[res].kind {
+            if is_tcp {
+                quickack(peer.as_raw_fd());
+            }
             let mut buf = [0u8; 4096];
             let deadline = Instant::now() + Duration::from_millis(500);
             loop {
@@ -1127,6 +1147,10 @@ impl<'a> World<'a> {
                     let zeros = buf[..n as usize].iter().filter(|&&b| b == 0).count();
                     *tcp_prefill_left = tcp_prefill_left.saturating_sub(zeros);
                     peer_got.extend(buf[..n as usize].iter().copied().filter(|&b| b != 0));
+                    if is_tcp {
+                        // flush the acknowledgement the kernel may have delayed
+                        quickack(peer.as_raw_fd());
+                    }
                     continue;
                 }
                 let want_more = *tcp_prefill_left > 0 || (zc_sent > 0 && peer_got.len() < zc_sent);
@@ -1206,6 +1230,12 @@ impl<'a> World<'a> {
                 if Instant::now() > deadline {
                     stuck_on = exp;
                     break;
+                }
+                for &i in &exp {
+                    if self.ops[i].spec.kind == Kind::Zc {
+                        // the peer keeps reading (and acknowledging) what arrives
+                        self.drain_peer(self.ops[i].spec.res as usize);
+                    }
                 }
                 if rounds > 6 {
                     std::thread::sleep(Duration::from_micros(100));
@@ -1659,6 +1689,18 @@ impl<'a> World<'a> {
                 }
             }
         }
+        // accepted connections: exactly the first k connections made (listener queue order)
+        for r in 0..self.ress.len() {
+            if let ResKind::Listener { accepted, clients, .. } = &self.ress[r].kind {
+                let mut a = accepted.clone();
+                a.sort();
+                let want: Vec<u8> = (0..a.len() as u8).collect();
+                if a != want {
+                    let msg = format!("listener {r}: {} connections were made, the accepts returned connections {:?} (expected the first {})", clients.len(), accepted, a.len());
+                    self.fail("result", "accept-not-a-prefix".into(), msg);
+                }
+            }
+        }
         // conservation: what the readers did not report is still in the descriptor
         for r in 0..self.ress.len() {
             let readers: Vec<usize> = (0..self.ops.len())
@@ -1769,10 +1811,19 @@ impl<'a> World<'a> {
         self.lifetime_oracle();
     }
 
+    /// could the FINAL completion of operation `i` sit in the completion queue when the driver
+    /// is dropped? (intermediate "more" completions do not count: the operation is still armed)
     fn op_is_cqe_possible(&self, i: usize) -> bool {
         let o = &self.ops[i];
         let port_ready = self.prog.port_of(i).map(|p| self.port_ready[p] > 0).unwrap_or(false);
-        port_ready || o.spec.kind == Kind::File || o.spec.kind == Kind::Zc || (o.cancel_step.is_some() && o.harvest_after_cancel)
+        let cancelled = o.cancel_step.is_some() && o.harvest_after_cancel;
+        match o.spec.kind {
+            // a multishot receive ends only through cancellation (or an error)
+            Kind::Multi => cancelled,
+            Kind::File => true,
+            // zero-copy: the notification follows the peer's acknowledgement (port made ready)
+            _ => port_ready || cancelled,
+        }
     }
 
     fn lifetime_oracle(&mut self) {
@@ -1916,6 +1967,16 @@ impl<'a> World<'a> {
                     class: if nc == 0 { "descriptor-leak".into() } else { "descriptor-double-close".into() },
                     msg: format!("descriptor handle {} was closed {nc} times by the end of the execution", r.fd_id),
                 });
+            }
+        }
+        // managed buffer pool: its buffers are unregistered and released by Proactor::drop before
+        // the ring is closed (counted, not judged: an armed multishot receive holds no buffer
+        // between completions and cannot select one after the unregistration)
+        if uring {
+            let armed = self.ops.iter().any(|o| o.spec.kind == Kind::Multi && o.ids.iter().any(|id| self.ids[id].submit.is_some() && self.ids[id].finals.is_empty()));
+            let early = self.trace.iter().any(|t| matches!(t.ev, Ev::Har(HKind::PoolFree(_))) && self.ring_closed.is_none_or(|r| t.seq < r));
+            if armed && early {
+                self.reached.push("pool_buffers_released_before_ring_closed_with_armed_multishot");
             }
         }
         // vacuity markers
